@@ -2,9 +2,9 @@
    Only ExtrOcamlBasic's directives are used; N, Z, positive, nat stay the
    extracted inductive types. *)
 From Coq Require Extraction ExtrOcamlBasic.
-From Econf Require Import Scenario Grammar LayeredScenario WriterSpec ToolModel.
+From Econf Require Import Scenario Grammar LayeredScenario WriterSpec ToolModel CwdModel.
 Extraction Language OCaml.
 (* the one extraction directive of our own: Coq's List.rev is quadratic; OCaml's
    List.rev computes the same list (lists are mapped to OCaml lists by ExtrOcamlBasic) *)
 Extract Constant List.rev => "List.rev".
-Extraction "model.ml" step run wstep world0 tool_show tool_syntax tool_cat cli_delims writable chk_render chk_wf chk_roundtrip err_code all_errs render wf_file agrees expected keyfile_of_read.
+Extraction "model.ml" step run wstep world0 tool_show tool_syntax tool_cat cli_delims writable chk_render chk_wf chk_roundtrip err_code all_errs render wf_file agrees expected keyfile_of_read respell.
